@@ -34,7 +34,7 @@ def diff_keys(a, b, prefix=None):
     return ks
 
 
-CONFIGS = ['sir_tabdeaths', 'sis_tx2', 'sir_userdists', 'sir_mf', 'sis_static', 'sir_er_deaths', 'sir_preg', 'sis_pool', 'hiv_mf_vx', 'measles_day', 'sir_births', 'sir_random_odd', 'ncd', 'sir_random_even']
+CONFIGS = ['sir_tabdeaths', 'sis_tx2', 'sir_userdists', 'sir_vx_all_or_nothing', 'syphilis_mf', 'sir_mf', 'sis_static', 'sir_er_deaths', 'sir_preg', 'sis_pool', 'hiv_mf_vx', 'measles_day', 'sir_births', 'sir_random_odd', 'ncd', 'sir_random_even']
 
 def make_sim(kind, seed, n=200, dur=8, extra=None, variant=0):
     """the configuration grid (extra: dict of additional module lists merged in)"""
@@ -59,6 +59,11 @@ def make_sim(kind, seed, n=200, dur=8, extra=None, variant=0):
         _USER_DISTS['w'].rvs(3); _USER_DISTS['g'].rvs(5)       # stand-alone use, every time a sim is built
         return ss.Sim(diseases=L('diseases', [ss.SIR(beta={'mf': [0.3, 0.2]}, init_prev=0.2, dur_inf=_USER_DISTS['w']), ss.SIS(beta={'mf': [0.2, 0.2]}, dur_inf=_USER_DISTS['g'])]), networks=L('networks', [ss.MFNet()]),
                       connectors=L('connectors', []), analyzers=L('analyzers', []), interventions=L('interventions', []), **kw)
+    if kind == 'sir_vx_all_or_nothing':      # the all-or-nothing vaccine product (leaky=False)
+        return ss.Sim(diseases=L('diseases', [ss.SIR(beta={'mf': [0.3, 0.2]}, init_prev=0.1)]), networks=L('networks', [ss.MFNet()]), interventions=L('interventions', [ss.routine_vx(product=ss.sir_vaccine(efficacy=0.6, leaky=False), prob=0.4)]),
+                      connectors=L('connectors', []), analyzers=L('analyzers', []), **kw)
+    if kind == 'syphilis_mf':
+        return ss.Sim(diseases=L('diseases', [ss.Syphilis(init_prev=0.2, beta={'mf': [0.5, 0.3]})]), networks=L('networks', [ss.MFNet()]), interventions=L('interventions', []), connectors=L('connectors', []), analyzers=L('analyzers', []), **kw)
     if kind == 'sir_mf': return ss.Sim(diseases=L('diseases', [ss.SIR(beta={'mf': [0.3, 0.2]}, init_prev=0.1)]), networks=L('networks', [ss.MFNet()]), connectors=L('connectors', []), analyzers=L('analyzers', []), interventions=L('interventions', []), **kw)
     if kind == 'sis_static': return ss.Sim(diseases=L('diseases', [ss.SIS(beta=0.1)]), networks=L('networks', [ss.StaticNet()]), connectors=L('connectors', []), analyzers=L('analyzers', []), interventions=L('interventions', []), **kw)
     if kind == 'sir_er_deaths': return ss.Sim(diseases=L('diseases', [ss.SIR(beta=0.2, p_death=0.2)]), networks=L('networks', [ss.ErdosRenyiNet()]), demographics=[ss.Deaths(death_rate=30)], connectors=L('connectors', []), analyzers=L('analyzers', []), interventions=L('interventions', []), **kw)
